@@ -616,7 +616,7 @@ class Plugin:
         if not isinstance(expect, np.dtype):
             raise ValueError(f"Plugin {pname} expects {expect} as dtype??")
         got = strax.remove_titles_from_dtype(x.dtype)
-        if got != expect:
+        if got != expect or strax.dtype_layout(x.dtype) != strax.dtype_layout(self.dtype_for(d)):
             raise strax.PluginGaveWrongOutput(
                 f"Plugin {pname} did not deliver "
                 f"data type {d} as promised.\n"
